@@ -7,6 +7,7 @@
 //	R3 time.Now()           -> simrt.Now()
 //	R4 simrt.Step(site)     at every function entry and every for body
 //	R5 (-stmt-yields)       simrt.Step(site) before every statement of every block
+//	R7                      simrt.Sync(site) before every statement that performs a sync/atomic operation
 //	R6 sync.Mutex/RWMutex/Once -> simrt.Mutex/RWMutex/Once (a blocking task parks and passes the turn)
 //
 // All rewrites are byte-range splices on the original source, so formatting,
@@ -154,6 +155,8 @@ type fileCtx struct {
 	edits []edit
 	// enclosing function name stack
 	funcs []string
+	// statements that got a synchronisation point (R7)
+	syncStmt map[ast.Stmt]bool
 }
 
 func (c *fileCtx) off(p token.Pos) int { return c.tf.Offset(p) }
@@ -353,10 +356,14 @@ func doFile(p *packages.Package, f *ast.File, filename string) {
 // stmtYields (R5) inserts a yield point before every statement of a statement list except the
 // first one of a function/loop body (R4 already put one there) and declarations of labels.
 func (c *fileCtx) stmtYields(list []ast.Stmt) {
+	c.syncPoints(list)
 	if !stmtYields || strings.HasSuffix(c.fset.Position(c.f.Pos()).Filename, "gram_y.go") {
 		return
 	}
 	for i, st := range list {
+		if c.syncStmt[st] {
+			continue // R7 put a synchronisation point (which is a yield point) there
+		}
 		if i == 0 {
 			continue
 		}
@@ -367,6 +374,83 @@ func (c *fileCtx) stmtYields(list []ast.Stmt) {
 		id := newSite("step_stmt", c.fset, st.Pos(), c.curFunc(), "")
 		c.edits = append(c.edits, edit{start: c.off(st.Pos()), end: c.off(st.Pos()), text: fmt.Sprintf("simrt.Step(%d); ", id), prio: -2})
 	}
+}
+
+// syncPoints (R7) inserts simrt.Sync(site) before every statement of a list that itself performs a
+// sync/atomic operation (in its own expressions - not in nested blocks or function literals, whose
+// statements are visited on their own).
+func (c *fileCtx) syncPoints(list []ast.Stmt) {
+	for _, st := range list {
+		var parts []ast.Node
+		switch x := st.(type) {
+		case *ast.ExprStmt, *ast.AssignStmt, *ast.ReturnStmt, *ast.IncDecStmt, *ast.DeclStmt, *ast.SendStmt:
+			parts = []ast.Node{st}
+		case *ast.IfStmt:
+			if x.Init != nil {
+				parts = append(parts, x.Init)
+			}
+			parts = append(parts, x.Cond)
+		case *ast.SwitchStmt:
+			if x.Init != nil {
+				parts = append(parts, x.Init)
+			}
+			if x.Tag != nil {
+				parts = append(parts, x.Tag)
+			}
+		case *ast.ForStmt:
+			if x.Init != nil {
+				parts = append(parts, x.Init)
+			}
+		case *ast.RangeStmt:
+			parts = append(parts, x.X)
+		}
+		found := false
+		for _, pt := range parts {
+			ast.Inspect(pt, func(n ast.Node) bool {
+				if found {
+					return false
+				}
+				switch y := n.(type) {
+				case *ast.FuncLit:
+					return false
+				case *ast.CallExpr:
+					if c.isAtomicCall(y) {
+						found = true
+						return false
+					}
+				}
+				return true
+			})
+		}
+		if !found {
+			continue
+		}
+		if c.syncStmt == nil {
+			c.syncStmt = map[ast.Stmt]bool{}
+		}
+		c.syncStmt[st] = true
+		id := newSite("sync_point", c.fset, st.Pos(), c.curFunc(), "")
+		c.edits = append(c.edits, edit{start: c.off(st.Pos()), end: c.off(st.Pos()), text: fmt.Sprintf("simrt.Sync(%d); ", id), prio: -2})
+	}
+}
+
+func (c *fileCtx) isAtomicCall(call *ast.CallExpr) bool {
+	var id *ast.Ident
+	switch f := call.Fun.(type) {
+	case *ast.SelectorExpr:
+		id = f.Sel
+	case *ast.Ident:
+		id = f
+	case *ast.IndexExpr: // explicit instantiation
+		if se, ok := f.X.(*ast.SelectorExpr); ok {
+			id = se.Sel
+		}
+	}
+	if id == nil {
+		return false
+	}
+	fn, ok := c.p.TypesInfo.Uses[id].(*types.Func)
+	return ok && fn.Pkg() != nil && fn.Pkg().Path() == "sync/atomic"
 }
 
 func recvName(e ast.Expr) string {
